@@ -158,10 +158,12 @@ CLAIMED = {
         level='proof', ref='DESIGN.md 3/C20',
         text="`modifies nothing` frame obligations, proved by the executor's ownership analysis (arguments, caller lists and module-level mutable constants are 'external/global'; "
              "every attribute/item assignment, append/pop on them is recorded) for every modelling entry point: thermodynamic functions at interior and end-point compositions, "
-             "conversions (9 unit pairs), flux law, solver (loop cut), helpers, ideal/non-ideal curves, curve construction, all process models (modes, programme, curve-set shapes), "
-             "membrane functions, fits and measurement extraction; AST scan: no global/nonlocal, no class-attribute assignment, no setattr. Plus a labelled bounded stand-in: random "
-             "call histories on shared objects under the real interpreter compared with fresh-state executions.",
-        note=TB + "determinism relies on the assumed purity of numpy/scipy; callee frames are used modularly and proved in the same check; history replay is bounded (2 sequences quick, 12 thorough) and not counted as proved",
+             "conversions (9 unit pairs), flux law, solver (loop cut), helpers, ideal/non-ideal curves, curve construction, all process models (modes, programme, curve-set shapes, curve sets in mass and in mole fractions), "
+             "membrane functions, fits and measurement extraction; AST scan: no global/nonlocal, no class-attribute assignment, no setattr. Memo caches (stores into per-instance or "
+             "module-level dicts) are modelled rather than forbidden: lookups fork on key equality, cached values escape, and two coherence obligations require that a stored value "
+             "depends only on its key (and the owner's other fields). Plus a labelled bounded stand-in: forced and random call histories on shared objects under the real "
+             "interpreter compared with fresh-state executions (private attributes are not part of an object's value; module-level state against a fresh interpreter).",
+        note=TB + "determinism relies on the assumed purity of numpy/scipy; callee frames are used modularly and proved in the same check; history replay is bounded (2 random + 6 forced sequences quick, 12 + 16 thorough) and not counted as proved; a failed cache-coherence obligation counts only with a native reproduction (else undecided)",
         technique="frame (modifies-nothing) contracts checked by ownership analysis during symbolic execution of the real bodies + AST scans; bounded native history replay"),
     'C17': dict(
         level='proof', ref='DESIGN.md 3/C17, 2.11',
